@@ -231,7 +231,10 @@ def insert_probes(rep):
              ('table-level-single', 'create table t(a int, b int, c int, primary key(a))', ('a',)),
              ('table-level-second-column', 'create table t(a int, b int, c int, primary key(b))', ('b',)),
              ('table-level-composite', 'create table t(a int, b int, c int, primary key(a, b))', ('a', 'b')),
-             ('table-level-with-not-null', 'create table t(a int not null, b int, c int, primary key(b))', ('a', 'b'))]
+             ('table-level-with-not-null', 'create table t(a int not null, b int, c int, primary key(b))', ('a', 'b')),
+             ('not-null-then-unique', 'create table t(a int not null unique, b int unique not null, c int)', ('a', 'b')),
+             ('not-null-with-default-options', 'create table t(a int not null, b int not null primary key, c int null)', ('a', 'b')),
+             ('primary-key-then-not-null', 'create table t(a int primary key not null, b int, c int not null)', ('a', 'c'))]
     for eng in ('mem', 'disk'):
         for dname, ddl, nn in decls:
             d = scratch_dir('c16') if eng == 'disk' else None
